@@ -161,7 +161,7 @@ func (k *kernel) rangeFor(s *ast.ForStmt, ind int) {
 	for _, v := range f.order {
 		k.assigned(v)
 	}
-	sort.SliceStable(f.order, func(i, j int) bool { return f.order[i].declPos < f.order[j].declPos })
+	sort.SliceStable(f.order, func(i, j int) bool { return declLess(f.order[i], f.order[j]) })
 	var names, types []string
 	for _, v := range f.order {
 		names = append(names, v.lean)
@@ -187,7 +187,7 @@ func (k *kernel) rangeFor(s *ast.ForStmt, ind int) {
 				caps = append(caps, v)
 			}
 		}
-		sort.SliceStable(caps, func(i, j int) bool { return caps[i].declPos < caps[j].declPos })
+		sort.SliceStable(caps, func(i, j int) bool { return declLess(caps[i], caps[j]) })
 		name := k.liftName(fmt.Sprintf("loopBody%d", k.nloop))
 		rel, line := k.relPos(s)
 		abs, absArgs := "", ""
@@ -319,7 +319,7 @@ func (k *kernel) rangeOver(s *ast.RangeStmt, ind int) {
 	for _, v := range f.order {
 		k.assigned(v)
 	}
-	sort.SliceStable(f.order, func(i, j int) bool { return f.order[i].declPos < f.order[j].declPos })
+	sort.SliceStable(f.order, func(i, j int) bool { return declLess(f.order[i], f.order[j]) })
 	var names, types []string
 	for _, v := range f.order {
 		names = append(names, v.lean)
